@@ -23,7 +23,7 @@ LEVEL_RULE = (
 EXHAUSTIVE_SUBDOMAINS = ["every NL band 1..59 x hemisphere x newer parity (directed)"]
 ASSUMPTIONS = ["positions whose recovered latitude is within 1e-9 deg of an NL transition are ambiguous, not judged",
                "receiver latitude clamped to [-90,90]; equal timestamps accept either frame"]
-REQUIRED = ["value_result", "datetime_ts", "aware_datetime_ts", "dst_change_ts", "reference_is_previous_fix", "no_ref_rejected", "rx_other_hemisphere", "rx_lat_zero", "rx_across_antimeridian",
+REQUIRED = ["receiver_44.5_to_45_degrees_of_longitude_away", "value_result", "datetime_ts", "aware_datetime_ts", "dst_change_ts", "reference_is_previous_fix", "no_ref_rejected", "rx_other_hemisphere", "rx_lat_zero", "rx_across_antimeridian",
             "rx_across_greenwich", "newer_even", "newer_odd", "target_south", "target_west"] + \
            ["band%d" % nl for nl in range(1, 60)]
 
@@ -48,7 +48,7 @@ def m_surface(ctx, case):
     key_w = "cprNL-window-above-87" if any(87.0 < abs(x) <= WINDOW_HI for x in (rl0, rl1)) else None
     # premise of the property: receiver within 45 NM and less than 45 deg of longitude from the target
     for (plat_, plon_) in (case["p0"], case["p1"]):
-        if cpr.arc_deg(plat_, plon_, rxlat, rxlon) * 60.0 > 45.0 or cpr.lon_diff(plon_, rxlon) >= 44.5:
+        if cpr.arc_deg(plat_, plon_, rxlat, rxlon) * 60.0 > 45.0 or cpr.lon_diff(plon_, rxlon) >= 44.995:
             ctx.hit("premise_not_met_skipped")
             return
     fn = adsb.position if case["api"] == "position" else adsb.surface_position
@@ -182,7 +182,7 @@ def mkcase(rng, lat, lon, order=None, rx=None):
         for _ in range(20):
             rd = rng.choice((rng.uniform(0, 45), 44.9, rng.uniform(0, 2), 0.0))
             rlat, rlon = cpr.destination(lat, lon, rng.choice((0, 90, 180, 270, rng.uniform(0, 360))), rd)
-            if cpr.lon_diff(rlon, lon) < 44.0 and cpr.lon_diff(rlon, lon1) < 44.0:
+            if cpr.lon_diff(rlon, lon) < 44.99 and cpr.lon_diff(rlon, lon1) < 44.99:
                 break
         else:
             rlat, rlon = lat, lon
@@ -229,6 +229,16 @@ def cases(ctx):
                 if ctx.mine(i):
                     yield "surface", mkcase(drng, sgn * cprgen.band_mid(nl), drng.uniform(-180, 180), order=order)
                 i += 1
+    # next to a pole the receiver can be almost 45 degrees of longitude away and still within 45 NM: the strip 44.5 .. 44.99
+    # degrees, where two of the four longitude solutions are almost equally far (a difference rounded to whole degrees ties)
+    for k in range(ctx.share(400 if quick else 6000)):
+        lat = rng.choice((1, -1)) * rng.uniform(89.35, 89.95)
+        lon = rng.uniform(-180, 180)
+        rxlon = cprgen.wrap180(lon + rng.choice((1, -1)) * rng.uniform(44.5, 44.99))
+        c = mkcase(rng, lat, lon, rx=[lat, rxlon])
+        c["p1"] = list(c["p0"])      # same position in both frames (a moving pair would leave the strip)
+        yield "surface", c
+        ctx.hit("receiver_44.5_to_45_degrees_of_longitude_away")
     # directed ambiguity-resolution cases: (target, receiver)
     D = [((-0.1, 10.0), (0.1, 10.0)), ((0.1, 10.0), (-0.1, 10.0)), ((0.2, -30.0), (0.0, -30.0)), ((-0.2, -30.0), (0.0, -30.0)),
          ((40.0, -179.95), (40.0, 179.95)), ((40.0, 179.95), (40.0, -179.95)), ((-40.0, 0.05), (-40.0, -0.05)),
